@@ -186,6 +186,18 @@ class ExprMixin(object):
         base = self.eval(st, env, node.value)
         return self.simp(st, self.getattr(st, base, node.attr, node, module))
 
+    def class_attr_value(self, cm, cnode):
+        """Value of a class-level binding: a constant, or a class / function / external name."""
+        if isinstance(cnode, ast.Name):
+            r = self.repo.resolve_global(cm, cnode.id)
+            if r is not None and r[0] == "class":
+                return ClassVal(r[1])
+            if r is not None and r[0] == "func":
+                return FuncVal(r[1], None)
+            if r is not None and r[0] == "ext":
+                return ExtVal(r[1])
+        return wrap_const(self.ce.eval(cm, cnode, "E5.classattr"))
+
     def getattr(self, st, base, name, node, module):
         if isinstance(base, Ref):
             o = st.heap[base.id]
@@ -201,7 +213,7 @@ class ExprMixin(object):
                     return BoundMeth(base, f)
                 if name in o.cls.class_assigns:
                     cm, cnode = o.cls.class_assigns[name]
-                    return wrap_const(self.ce.eval(cm, cnode, "E5.classattr"))
+                    return self.class_attr_value(cm, cnode)
                 if name == "__dict__":
                     self.event("dunder_dict", node, module, st)
                     return Opaque("__dict__")
@@ -220,7 +232,7 @@ class ExprMixin(object):
                 return Const(base.cls.name)
             if name in base.cls.class_assigns:
                 cm, cnode = base.cls.class_assigns[name]
-                return wrap_const(self.ce.eval(cm, cnode, "E5.classattr"))
+                return self.class_attr_value(cm, cnode)
             raise AnalysisError("E5.attr", "class attribute %s" % name, node, module)
         if isinstance(base, ExtVal):
             if base.dotted.startswith("cvss.") and base.dotted[5:] in self.repo.modules:
